@@ -25,7 +25,7 @@ import Rox.Lemmas.SingleRoot
 import Rox.Lemmas.LdRefine
 import Rox.Lemmas.DocSpans
 import Rox.Props.C08Base
-import Rox.Props.C14
+import Rox.Props.C14Base
 import Rox.Props.C16
 
 namespace Rox.Props.C08.Reject
